@@ -58,7 +58,7 @@ impl Mon {
     Some(txid) == self.funding_spend_confirmed
 //@with
     opt_txid_eq(Some(txid), self.funding_spend_confirmed)
-//@rw R8
+//@rw R8 ?
     Some(txid) == htlc.resolving_txid
 //@with
     opt_txid_eq(Some(txid), htlc.resolving_txid)
@@ -77,20 +77,20 @@ impl Mon {
     forall|k: int| 0 <= k < self.onchain_events_awaiting_threshold_conf@.len() && self.onchain_events_awaiting_threshold_conf@[k].txid == txid && self.onchain_events_awaiting_threshold_conf@[k].block_hash is Some ==> self.onchain_events_awaiting_threshold_conf@[k].block_hash->Some_0 == header.hash,
 //@ensures P C11 a-transaction-delivered-again-is-skipped-exactly-when-the-monitor-already-holds-its-effects-so-re-delivery-changes-nothing-and-nothing-new-is-dropped
     r == known(*self, txid),
-//@mutant already_resolved_htlc_transaction_processed_again
-    if Some(txid) == htlc.resolving_txid { continue 'tx_iter; }
+//@mutant transactions_that_resolved_no_htlc_skipped
+    if Some(txid) == htlc.resolving_txid {
 //@with
-    if Some(txid) == htlc.resolving_txid { }
-//@mutant every_transaction_skipped_once_a_funding_spend_confirmed
-    if Some(txid) == self.funding_spend_confirmed {
+    if htlc.resolving_txid.is_some() {
+//@mutant every_transaction_but_the_confirmed_alternative_funding_skipped
+    |(alternative_funding_txid, _)| alternative_funding_txid == txid
 //@with
-    if self.funding_spend_confirmed.is_some() {
+    |(alternative_funding_txid, _)| alternative_funding_txid != txid
 //@end
 //@extract lightning/src/chain/channelmonitor.rs :: impl ChannelMonitorImpl :: fn transactions_confirmed
 //@slice R15
-    if !self.funding_spend_seen { $first:straight } self.funding_spend_seen = true;
+    if $seen:cond { $first:straight } self.funding_spend_seen = true;
 //@with
-    fn note_that_the_funding_output_was_spent(&mut self) { if !self.funding_spend_seen { $first } self.funding_spend_seen = true; }
+    fn note_that_the_funding_output_was_spent(&mut self) { if $seen { $first } self.funding_spend_seen = true; }
 //@ensures P C11,C07 the-first-confirmed-spend-of-the-funding-output-is-reported-once-however-often-it-is-seen
     final(self).funding_spend_seen,
     final(self).pending_monitor_events@ == (if old(self).funding_spend_seen { old(self).pending_monitor_events@ } else { old(self).pending_monitor_events@.push(MonitorEvent::CommitmentTxConfirmed(())) }),
